@@ -210,8 +210,16 @@ package sshfx
 // ---------------------------------------------------------------------------
 // attributes (attrs.go)
 
+//@ ghost var xCount int
+//@ ghost var xLeft int
+
 //@ func (*Attributes).XXX_UnmarshalByFlags
-//@   property C08
+//@   property C08, C06
+//@   update after call (*Buffer).ConsumeCount#1: ghost.xCount = ret
+//@   update after call (*Buffer).ConsumeCount#1: ghost.xLeft = len(buf.b) - buf.off
+//@   ensures flags & AttrExtended != 0 && 0 <= ghost.xCount && ghost.xCount <= 0x7fffffff && ghost.xCount * 8 <= ghost.xLeft ==> len(a.ExtendedAttributes) == ghost.xCount
+// (C06: an extended block is refused for its count only when the count cannot fit -- a pair is at least two empty
+//  strings, 8 bytes; whatever this codec and the wire codec encode is accepted)
 //@   alloc-bound 4*len(buf.b) + 64
 //@   results err
 //@   requires bufOK(buf)
